@@ -89,6 +89,17 @@ Proof. exact run_total. Qed.
 Print Assumptions c19_run_total.
 Example c19_ranges_ex : c19_ranges cfg_2997 3003 /\ c19_side cfg_2997 3003.
 Proof. split; [exact ranges_2997|exact side_2997]. Qed.
+(* ... and a run inside these hypotheses whose playlist lists a non-final part (29.97 fps,
+   PartMinDuration 200 ms: 6 frames, 200.2 ms), at a clock rate of the text theorem *)
+Example c19_run_ex : exists s p,
+  run cfg_2997 init_state (constWrites 0 3003 (flags_gop 3 30)) = POk s /\ In p (nonFinalListed s)
+  /\ clockRate cfg_2997 <= 5000 * Z.gcd 200000 (clockRate cfg_2997).
+Proof. exact run_example. Qed.
+
+Theorem c19_prefix_closed : forall n flags d0 T,
+  firstn n (constWrites d0 T flags) = constWrites d0 T (firstn n flags).
+Proof. exact constWrites_firstn. Qed.
+Print Assumptions c19_prefix_closed.
 
 (* D >= PartMinDuration, D < 2*max(PartMinDuration, sample duration) + sample duration,
    D <= PART-TARGET of the same playlist: no side condition *)
